@@ -7,6 +7,8 @@
 //                                            max_smashable_cells=C max_array_size=M
 //   --mode=cells                             unit stream on offset_map_t / cell_t /
 //                                            array_state::can_be_smashed (private members)
+//   --mode=smash-bool | adapt-bool:S:N:C:M   arrays of booleans over flat_boolean_numerical_domain<interval_domain>
+//                                            (history language "abhist" / "abshape", see run_bool_history)
 //
 // History line:  ahist <nregs> <nscalars> <narrays> ; <op> ; <op> ; ...
 // Scalars v0.. are integers of the width given by w=<bits> in the header (default 32; the
@@ -32,6 +34,7 @@
 #include "hcommon.hpp"
 #include <crab/domains/intervals.hpp>
 #include <crab/domains/split_dbm.hpp>
+#include <crab/domains/flat_boolean_domain.hpp>
 #include <crab/domains/array_smashing.hpp>
 #include <crab/domains/abstract_domain_params.hpp>
 #include <crab/fixpoint/thresholds.hpp>
@@ -52,6 +55,9 @@ typedef crab::domains::array_smashing<itvdom_t> smash_itv_t;
 typedef crab::domains::array_smashing<zones_t> smash_zones_t;
 typedef crab::domains::array_adaptive_domain<itvdom_t> adapt_itv_t;
 typedef crab::domains::array_adaptive_domain<zones_t> adapt_zones_t;
+typedef crab::domains::flat_boolean_numerical_domain<itvdom_t> boolitv_t;
+typedef crab::domains::array_smashing<boolitv_t> smash_bool_t;
+typedef crab::domains::array_adaptive_domain<boolitv_t> adapt_bool_t;
 using crab::domains::array_adaptive_impl::offset_t;
 using crab::domains::array_adaptive_impl::cell_t;
 using crab::domains::array_adaptive_impl::offset_map_t;
@@ -214,6 +220,135 @@ template <typename Dom> static std::string run_history(const std::vector<std::st
   return out;
 }
 
+// ---------------------------------------------------------------- arrays of booleans
+// History line:  abhist|abshape <nregs> <nints> <nbools> <narrays> ; <op> ; ...
+// Integer variables v0.. (32 bits; indexes), boolean variables b0.., arrays A0.. of booleans
+// (crab::ARR_BOOL_TYPE, element size 1).  In variable lists an index < nints is an integer,
+// < nints+nbools a boolean, otherwise an array.  The operations on registers and integer
+// variables are those of "ahist" (top bot copy assign arith assume forget forget1 join joinw
+// widen widenthr meet narrow q_leq); the array operations have the same shape, a stored value
+// <V> being "E 0 0" (false), "E 0 1" (true) or "B <b>" (the boolean variable b):
+//   ainit r a <Esz> <Elb> <Eub> <V>      astore r a <Esz> <Eix> <V> strong
+//   arange r a <Esz> <Elb> <Eub> <V>     aload r b a <Esz> <Eix>          acopy r l rr
+// and on boolean variables
+//   bset r b 0|1          b := false | true         (assign_bool_cst with get_false / get_true)
+//   bassign r b <C>       b := (linear constraint)  (assign_bool_cst)
+//   bcopy r b b2 neg      b := b2 | not b2          (assign_bool_var)
+//   bassume r b neg       assume_bool(b, neg)
+// Answer per state-changing op: "_|_" or ["T"] at(v0)|at(v1)|.. / x0|x1|..  with x = t, f, T or B:
+// what the flat boolean component of the base domain holds for b (true, false, top, bottom).
+template <typename Base> static std::string bool_at(const crab::domains::array_smashing<Base> &d, const z_var &b) {
+  crab::domains::array_smashing<Base> t(d);
+  auto v = t.get_content_domain().first().get_bool(b);
+  return v.is_bottom() ? "B" : v.is_true() ? "t" : v.is_false() ? "f" : "T";
+}
+template <typename Base> static std::string bool_at(const crab::domains::array_adaptive_domain<Base> &d, const z_var &b) {
+  return bool_at(d.get_content_domain(), b);
+}
+
+struct bctx : ctx {
+  std::vector<z_var> bv;
+  void init_bool(unsigned ni, unsigned nb, unsigned na) {
+    for (unsigned i = 0; i < ni; ++i) sc.push_back(z_var(vfac["v" + std::to_string(i)], crab::INT_TYPE, 32));
+    for (unsigned i = 0; i < nb; ++i) bv.push_back(z_var(vfac["b" + std::to_string(i)], crab::BOOL_TYPE, 1));
+    for (unsigned i = 0; i < na; ++i) ar.push_back(z_var(vfac["A" + std::to_string(i)], crab::ARR_BOOL_TYPE, 1));
+  }
+  const z_var &anyvar(long i) const {
+    if ((size_t)i < sc.size()) return sc[i];
+    i -= sc.size();
+    return (size_t)i < bv.size() ? bv[i] : ar.at(i - bv.size());
+  }
+};
+
+static lin_t parse_bval(bctx &c, tok &k) {      // E 0 0 | E 0 1 | B b
+  if (k.p < k.t.size() && k.t[k.p] == "B") { k.next(); return lin_t(c.bv.at(k.nexti())); }
+  return parse_exp(c, k);
+}
+
+template <typename Dom> static std::string show_bool_state(bctx &c, const Dom &d) {
+  if (d.is_bottom()) return "_|_";
+  std::string r = d.is_top() ? "T" : "";
+  for (size_t i = 0; i < c.sc.size(); ++i) { r += (i ? "|" : ""); r += str(d.at(c.sc[i])); }
+  r += " / ";
+  for (size_t i = 0; i < c.bv.size(); ++i) { r += (i ? "|" : ""); r += bool_at(d, c.bv[i]); }
+  return r;
+}
+
+template <typename Dom> static std::string run_bool_history(const std::vector<std::string> &line) {
+  std::vector<std::vector<std::string>> ops(1);
+  for (auto &s : line) { if (s == ";") ops.emplace_back(); else ops.back().push_back(s); }
+  if (ops[0].size() < 5 || (ops[0][0] != "abhist" && ops[0][0] != "abshape")) return "HARNESS-ERROR";
+  bool with_shape = ops[0][0] == "abshape";
+  unsigned nregs = std::stoul(ops[0][1]), ni = std::stoul(ops[0][2]), nb = std::stoul(ops[0][3]), na = std::stoul(ops[0][4]);
+  bctx c; c.init_bool(ni, nb, na);
+  Dom topv;
+  std::vector<Dom> regs(nregs, topv.make_top());
+  std::string out;
+  auto emit = [&](const std::string &s) { if (!out.empty()) out += " ; "; out += s; };
+  for (size_t i = 1; i < ops.size(); ++i) {
+    if (ops[i].empty()) continue;
+    tok k{ops[i], 0};
+    std::string op = k.next();
+    if (op == "q_leq") { long s = k.nexti(), t = k.nexti(); emit(regs[s] <= regs[t] ? "true" : "false"); continue; }
+    long r = k.nexti();
+    Dom &d = regs[r];
+    if (op == "top") d.set_to_top();
+    else if (op == "bot") d.set_to_bottom();
+    else if (op == "copy") { long s = k.nexti(); Dom tmp(regs[s]); d = tmp; }
+    else if (op == "assign") { long x = k.nexti(); lin_t e = parse_exp(c, k); d.assign(c.sc.at(x), e); }
+    else if (op == "arith") {
+      std::string o = k.next(); long x = k.nexti(), y = k.nexti(); std::string kind = k.next();
+      crab::domains::arith_operation_t ao =
+        o == "add" ? crab::domains::OP_ADDITION : o == "sub" ? crab::domains::OP_SUBTRACTION : crab::domains::OP_MULTIPLICATION;
+      if (kind == "v") d.apply(ao, c.sc.at(x), c.sc.at(y), c.sc.at(k.nexti()));
+      else d.apply(ao, c.sc.at(x), c.sc.at(y), k.nextz());
+    }
+    else if (op == "assume") { long n = k.nexti(); csts_t cs; for (long j = 0; j < n; ++j) cs += parse_cst(c, k); d += cs; }
+    else if (op == "forget") {
+      long n = k.nexti(); std::vector<z_var> vs; for (long j = 0; j < n; ++j) vs.push_back(c.anyvar(k.nexti()));
+      d.forget(vs);
+    }
+    else if (op == "forget1") { d -= c.anyvar(k.nexti()); }
+    else if (op == "bset") { long b = k.nexti(); d.assign_bool_cst(c.bv.at(b), k.nexti() != 0 ? cst_t::get_true() : cst_t::get_false()); }
+    else if (op == "bassign") { long b = k.nexti(); cst_t cs = parse_cst(c, k); d.assign_bool_cst(c.bv.at(b), cs); }
+    else if (op == "bcopy") { long b = k.nexti(), b2 = k.nexti(); d.assign_bool_var(c.bv.at(b), c.bv.at(b2), k.nexti() != 0); }
+    else if (op == "bassume") { long b = k.nexti(); d.assume_bool(c.bv.at(b), k.nexti() != 0); }
+    else if (op == "ainit") {
+      long a = k.nexti(); lin_t es = parse_exp(c, k), lb = parse_exp(c, k), ub = parse_exp(c, k), v = parse_bval(c, k);
+      d.array_init(c.ar.at(a), es, lb, ub, v);
+    }
+    else if (op == "aload") {
+      long x = k.nexti(), a = k.nexti(); lin_t es = parse_exp(c, k), ix = parse_exp(c, k);
+      d.array_load(c.bv.at(x), c.ar.at(a), es, ix);
+    }
+    else if (op == "astore") {
+      long a = k.nexti(); lin_t es = parse_exp(c, k), ix = parse_exp(c, k), v = parse_bval(c, k); long strong = k.nexti();
+      d.array_store(c.ar.at(a), es, ix, v, strong != 0);
+    }
+    else if (op == "arange") {
+      long a = k.nexti(); lin_t es = parse_exp(c, k), lb = parse_exp(c, k), ub = parse_exp(c, k), v = parse_bval(c, k);
+      d.array_store_range(c.ar.at(a), es, lb, ub, v);
+    }
+    else if (op == "acopy") { long l = k.nexti(), rr = k.nexti(); d.array_assign(c.ar.at(l), c.ar.at(rr)); }
+    else if (op == "join" || op == "meet" || op == "widen" || op == "narrow" || op == "widenthr" || op == "joinw") {
+      long s = k.nexti(), t = k.nexti();
+      if (op == "join") { Dom tmp = regs[s] | regs[t]; regs[r] = tmp; }
+      else if (op == "joinw") { Dom tmp(regs[s]); tmp |= regs[t]; regs[r] = tmp; }
+      else if (op == "meet") { Dom tmp = regs[s] & regs[t]; regs[r] = tmp; }
+      else if (op == "widen") { Dom tmp = regs[s] || regs[t]; regs[r] = tmp; }
+      else if (op == "narrow") { Dom tmp = regs[s] && regs[t]; regs[r] = tmp; }
+      else {
+        long n = k.nexti(); crab::thresholds<z_number> ts;
+        for (long j = 0; j < n; ++j) ts.add(bound<z_number>(k.nextz()));
+        Dom tmp = regs[s].widening_thresholds(regs[t], ts); regs[r] = tmp;
+      }
+    }
+    else return "HARNESS-ERROR " + op;
+    emit(show_bool_state(c, regs[r]) + (with_shape ? shape<Dom>::show(c, regs[r]) : std::string()));
+  }
+  return out;
+}
+
 // ---------------------------------------------------------------- cell-algebra unit stream
 // cells ; <op> ; ...   on two offset maps m0, m1 and an interval-domain value for the
 // symbolic queries.
@@ -369,6 +504,8 @@ static std::string eval(const std::vector<std::string> &t) {
   if (mode == "smash-zones") return run_history<smash_zones_t>(t);
   if (mode.compare(0, 9, "adapt-itv") == 0) return run_history<adapt_itv_t>(t);
   if (mode.compare(0, 11, "adapt-zones") == 0) return run_history<adapt_zones_t>(t);
+  if (mode == "smash-bool") return run_bool_history<smash_bool_t>(t);
+  if (mode.compare(0, 10, "adapt-bool") == 0) return run_bool_history<adapt_bool_t>(t);
   return "HARNESS-ERROR mode";
 }
 int main(int argc, char **argv) {
